@@ -565,7 +565,7 @@ def r4_folding(F, R):
     om = self_match(F, op, MATHOP)
     names = [v for v, _ in arm_table(om)]
     for v in F.variants(MATHOP):
-        if names.count(v) == 1:
+        if names.count(v) >= 1:
             R.ok(f"operate|arm|{v}")
         else:
             R.bad(f"operate|arm|{v}", f"MathOp::operate has {names.count(v)} arms for {v}", loc(om))
